@@ -9,7 +9,7 @@
    every run (Schema/Run.v + harness/c18), not proved. *)
 From Coq Require Import ZArith QArith List String NArith.
 From GSP Require Import Base.Prelude Schema.Json Schema.Regex Schema.Model Schema.Spec
-  Schema.ThRegex Schema.ThJson Schema.Theory Schema.Decide Schema.Fuel Schema.Complete.
+  Schema.ThRegex Schema.ThJson Schema.Theory Schema.Decide Schema.Fuel Schema.Complete Schema.Total.
 Import ListNotations.
 
 (* MAIN STATEMENT.  For every environment of $ref targets, every schema whose $ref
@@ -149,38 +149,47 @@ Proof. exact law_ref_unfold. Qed.
 Print Assumptions C18_law_ref.
 
 (* the repository's wrapper (json/validator.go): malformed schema text, malformed
-   data, non-object data and uncompilable schemas are errors; otherwise the verdict *)
+   data, non-object data and uncompilable schemas are errors; otherwise the verdict.
+   `validate_data_with fuel_of` is the wrapper model for an arbitrary fuel policy;
+   `validate_data` (what the case files run) is the instance `fuel_of := fuel_for`. *)
 Theorem C18_glue_schema_malformed :
-  forall fuel data, validate_data_fuel fuel data None = Err "schema-json".
+  forall fuel_of data, validate_data_with fuel_of data None = Err "schema-json".
 Proof. exact glue_schema_malformed. Qed.
 Print Assumptions C18_glue_schema_malformed.
 
 Theorem C18_glue_data_malformed :
-  forall fuel sj, validate_data_fuel fuel None (Some sj) = Err "data-json".
+  forall fuel_of sj, validate_data_with fuel_of None (Some sj) = Err "data-json".
 Proof. exact glue_data_malformed. Qed.
 Print Assumptions C18_glue_data_malformed.
 
 Theorem C18_glue_data_not_object :
-  forall fuel j sj, (forall o, j <> JObj o) ->
-  validate_data_fuel fuel (Some j) (Some sj) = Err "data-null" \/
-  validate_data_fuel fuel (Some j) (Some sj) = Err "data-type".
+  forall fuel_of j sj, (forall o, j <> JObj o) ->
+  validate_data_with fuel_of (Some j) (Some sj) = Err "data-null" \/
+  validate_data_with fuel_of (Some j) (Some sj) = Err "data-type".
 Proof. exact glue_data_not_object. Qed.
 Print Assumptions C18_glue_data_not_object.
 
 Theorem C18_glue_schema_uncompilable :
-  forall fuel o sj t, compile_root sj = Err t ->
-  validate_data_fuel fuel (Some (JObj o)) (Some sj) = Err t.
+  forall fuel_of o sj t, compile_root sj = Err t ->
+  validate_data_with fuel_of (Some (JObj o)) (Some sj) = Err t.
 Proof. exact glue_schema_uncompilable. Qed.
 Print Assumptions C18_glue_schema_uncompilable.
 
 Theorem C18_glue_verdict :
-  forall fuel o sj c,
+  forall (fuel_of : compiled -> json -> nat) o sj c,
   compile_root sj = Ok c ->
-  validate (c_env c) fuel (c_root c) (JObj o) <> None ->
-  (validate_data_fuel fuel (Some (JObj o)) (Some sj) = Ok tt <-> Valid (c_env c) (c_root c) (JObj o)) /\
-  (validate_data_fuel fuel (Some (JObj o)) (Some sj) = Err "invalid" <-> Invalid (c_env c) (c_root c) (JObj o)).
+  validate (c_env c) (fuel_of c (JObj o)) (c_root c) (JObj o) <> None ->
+  (validate_data_with fuel_of (Some (JObj o)) (Some sj) = Ok tt <-> Valid (c_env c) (c_root c) (JObj o)) /\
+  (validate_data_with fuel_of (Some (JObj o)) (Some sj) = Err "invalid" <-> Invalid (c_env c) (c_root c) (JObj o)).
 Proof. exact glue_verdict. Qed.
 Print Assumptions C18_glue_verdict.
+
+(* the model of ValidateData is total: Ok or a classified error, for every input *)
+Theorem C18_glue_total :
+  forall fuel_of data schema,
+  validate_data_with fuel_of data schema = Ok tt \/ exists t, validate_data_with fuel_of data schema = Err t.
+Proof. exact validate_data_total. Qed.
+Print Assumptions C18_glue_total.
 
 (* unknown members such as "$metadata" do not influence compilation, hence not the verdict *)
 Theorem C18_unknown_members_ignored :
@@ -192,6 +201,21 @@ Print Assumptions C18_unknown_members_ignored.
 Theorem C18_metadata_is_unknown : unknown_member "$metadata" = true.
 Proof. exact metadata_is_unknown. Qed.
 Print Assumptions C18_metadata_is_unknown.
+
+(* draft-07: an object with "$ref" IS the reference, its siblings are ignored;
+   2020-12: the reference and the siblings all apply *)
+Theorem C18_draft7_ref_siblings_ignored :
+  forall cks t, find_ck get_ref cks = Some t -> assemble D7 cks = SRef t.
+Proof. exact draft7_ref_siblings_ignored. Qed.
+Print Assumptions C18_draft7_ref_siblings_ignored.
+
+Theorem C18_draft2020_ref_siblings_apply :
+  forall E cks t j, find_ck get_ref cks = Some t ->
+  (Valid E (assemble D2020 cks) j <->
+   Valid E (SRef t) j /\
+   Valid E (SAllOf (simples cks ++ props_bundle cks ++ items_bundle D2020 cks)) j).
+Proof. exact draft2020_ref_siblings_apply. Qed.
+Print Assumptions C18_draft2020_ref_siblings_apply.
 
 (* processor facade: delegation, or an error when no validator is configured *)
 Theorem C18_glue_processor :
